@@ -51,12 +51,15 @@ func firstMessages() []firstMsg {
 	var out []firstMsg
 	right := digest("pw1")
 	events := []any{abs, 0, 1, 2, "1"}
-	users := []any{abs, "op1", "nobody", "", 7, "OP1", "op1 "}
+	right2 := digest("pw2")
+	users := []any{abs, "op1", "nobody", "", 7, "OP1", "op1 ", "op2"}
 	subs := []any{abs, 1, 3, 4}
 	infos := []any{abs, nil, map[string]any{}, map[string]any{"User": "op1"}, map[string]any{"Password": right},
 		map[string]any{"Password": "00" + right[2:]}, map[string]any{"Password": 7}, map[string]any{"User": "op1", "Password": ""}, map[string]any{"User": "op1", "Password": right[:10]},
 		map[string]any{"User": "op1", "Password": right}, map[string]any{"User": "op1", "Password": "wrong"},
-		map[string]any{"User": 7, "Password": right}}
+		map[string]any{"User": 7, "Password": right},
+		// the body names another operator than the head and carries that one's digest
+		map[string]any{"User": "op2", "Password": right2}, map[string]any{"User": "op1", "Password": right2}}
 	for _, e := range events {
 		for _, u := range users {
 			for _, s := range subs {
@@ -72,9 +75,10 @@ func firstMessages() []firstMsg {
 					// the one accepted shape: init-connection event, OAuth request, a profile
 					// operator, and the SHA3-256 hex digest of that operator's password
 					acc := false
-					if e == 1 && u == "op1" && s == 3 {
+					// (the operator is the one named in the head: that is the name the session gets)
+					if e == 1 && (u == "op1" || u == "op2") && s == 3 {
 						if m, ok := inf.(map[string]any); ok {
-							if p, ok := m["Password"].(string); ok && p == right {
+							if p, ok := m["Password"].(string); ok && p == map[any]string{"op1": right, "op2": right2}[u] {
 								acc = true
 							}
 						}
